@@ -959,9 +959,19 @@ func (a *Analysis) spuriousRejections(paths []*Path) []string {
 			if _, div := lenOverConst(o); o.Op != "buflen" && !div {
 				continue
 			}
-			// the direction taken must mean: more is needed than the buffer holds
+			// the direction taken must mean: more is needed than the buffer holds – strictly more: a guard that also
+			// refuses need == Len() (written >= where > is meant) rejects a complete message whose last field this is
 			if availabilityGuard(Cond{V: last.V, Taken: !last.Taken}, last.V.Args[1-side]) {
-				return true
+				op := last.V.Name
+				if !last.Taken {
+					op = map[string]string{"<": ">=", ">=": "<", ">": "<=", "<=": ">"}[op]
+				}
+				if side == 0 { // Len op need  ->  need op' Len
+					op = map[string]string{"<": ">", ">": "<", "<=": ">=", ">=": "<="}[op]
+				}
+				if op == ">" {
+					return true
+				}
 			}
 		}
 		return false
